@@ -87,7 +87,40 @@ def run_c11(ctx, ck):
         ctx.samples.append({"source": hexs(s["cases"][k]), "tokens": s["impl"].get(k, "")[:300]})
 
 
+# ---------------------------------------------------------------- C19
+def run_c19(ctx, ck):
+    n = 250 if ctx.tier == "quick" else 4000
+    s = ck.run_stream(ctx, "tsh", n)
+
+    def unf(field):
+        return [hexs(x) for x in field.split(",") if x]
+
+    def describe(k, s):
+        f = s["cases"][k].split(" ")
+        return "argv=%r fs=%r" % (unf(f[0]), [e[0] + ":" + hexs(e[1:].split(".")[0]) for e in f[1].split(",") if e])
+
+    def sig(k, s):
+        return {}
+
+    def nontrivial(k, s):
+        return True
+
+    compare(ctx, s, "tsh binary: exit class and resulting directory tree", sig, describe, nontrivial)
+    ctx.cov["distribution"] = s["meta"]
+    for k in list(s["cases"])[:3]:
+        ctx.samples.append({"case": describe(k, s), "observed": s["impl"].get(k, "")[:200]})
+
+
 PROPS = {
+    "C19": {
+        "run": run_c19,
+        "rule": "argument vectors over -i/-o/-t (short and long forms, shuffled pair order, repeated targets, dangling option, unknown option/target, "
+                "missing/dir input, missing/file output dir, pre-existing output), input names with several dots/none/blanks/subdirectory, accepted and "
+                "rejected programs; every case is a distinct history executed by the real tsh binary in a scratch directory; all are non-trivial",
+        "assumptions": ["the library result passed to the model is what transpiler.Transpile returns in-process with a fresh converter",
+                        "paths are relative, without trailing separators (join_out/base/stem model filepath.Join/Base/Ext on that shape)"],
+        "trusted": ["coq/Cli/Tsh.v mirrors tsh.go; the abstract file system (association list) stands for the OS"],
+    },
     "C11": {
         "run": run_c11,
         "rule": "token sequences (identifiers incl. trueish/nilx/format, keywords, bools, numbers, interpreted/raw strings with escapes, "
